@@ -94,6 +94,8 @@ pub struct SinkState {
     pub flushes: usize,
     /// accept at most this many bytes per write call (0 = unlimited); for one-byte-at-a-time sinks
     pub chunk: usize,
+    /// absolute byte offsets at which a write is cut short (accept only up to the offset)
+    pub cuts: Vec<usize>,
 }
 
 #[derive(Clone)]
@@ -128,6 +130,12 @@ impl Write for SharedSink {
                 let mut n = buf.len().min(k.max(1));
                 if s.chunk > 0 {
                     n = n.min(s.chunk);
+                }
+                let have = s.data.len();
+                for &cut in &s.cuts {
+                    if cut > have && cut < have + n {
+                        n = cut - have;
+                    }
                 }
                 let n = if buf.is_empty() { 0 } else { n };
                 s.data.extend_from_slice(&buf[..n]);
@@ -377,6 +385,8 @@ pub struct RunResult {
     pub stats: Option<MuxerStats>,
     pub bytes: Vec<u8>,
     pub crashed: bool,
+    /// every write() call the sink saw: (offered, response tag, accepted)
+    pub writes: Vec<(usize, String, usize)>,
 }
 
 fn stats_json(s: &MuxerStats, cfg: &Cfg) -> Value {
@@ -397,11 +407,12 @@ pub struct RunOpts {
     pub sink_chunk: usize,
     pub script: Vec<Resp>,
     pub after: Option<Resp>,
+    pub cuts: Vec<usize>,
 }
 
 impl Default for RunOpts {
     fn default() -> Self {
-        RunOpts { style: BuildStyle::Plain, project: true, sink_chunk: 0, script: vec![], after: None }
+        RunOpts { style: BuildStyle::Plain, project: true, sink_chunk: 0, script: vec![], after: None, cuts: vec![] }
     }
 }
 
@@ -413,6 +424,7 @@ pub fn run_instance(id: u64, cfg: &Cfg, calls: &[Value], opts: &RunOpts) -> RunR
         s.chunk = opts.sink_chunk;
         s.script = opts.script.clone();
         s.after = opts.after.clone();
+        s.cuts = opts.cuts.clone();
     }
     let mut events = Vec::new();
     let mut outcomes = Vec::new();
@@ -447,7 +459,7 @@ pub fn run_instance(id: u64, cfg: &Cfg, calls: &[Value], opts: &RunOpts) -> RunR
     };
     events.push(Value::Object(new_ev));
     if mux.is_none() {
-        return RunResult { events, outcomes, stats: None, bytes: sink.bytes(), crashed };
+        return RunResult { events, outcomes, stats: None, bytes: sink.bytes(), crashed, writes: vec![] };
     }
     let unit = Unit(cfg.unit());
     let facets = cfg.facets();
@@ -455,6 +467,7 @@ pub fn run_instance(id: u64, cfg: &Cfg, calls: &[Value], opts: &RunOpts) -> RunR
     for c in calls {
         let op = gs(c, "op");
         let sb = sink.len();
+        let wb = sink.0.lock().unwrap().writes.len();
         let mut ev = c.as_object().cloned().unwrap_or_default();
         ev.insert("i".into(), json!(id));
         let is_fin = op == "fin";
@@ -527,6 +540,8 @@ pub fn run_instance(id: u64, cfg: &Cfg, calls: &[Value], opts: &RunOpts) -> RunR
         let sa = sink.len();
         ev.insert("sb".into(), json!(sb));
         ev.insert("sa".into(), json!(sa));
+        ev.insert("wb".into(), json!(wb));
+        ev.insert("wa".into(), json!(sink.0.lock().unwrap().writes.len()));
         let (ok, var) = match &r {
             Ok(Ok(())) => (true, String::new()),
             Ok(Err(e)) => {
@@ -559,7 +574,8 @@ pub fn run_instance(id: u64, cfg: &Cfg, calls: &[Value], opts: &RunOpts) -> RunR
             break; // the instance is abandoned at the panic
         }
     }
-    RunResult { events, outcomes, stats: stats_out, bytes: sink.bytes(), crashed }
+    let writes = sink.0.lock().unwrap().writes.clone();
+    RunResult { events, outcomes, stats: stats_out, bytes: sink.bytes(), crashed, writes }
 }
 
 // ------------------------------------------------------------------------------------------------
@@ -782,5 +798,5 @@ pub fn run_frag_instance(id: u64, cfg: &Cfg, calls: &[Value]) -> RunResult {
             }
         }
     }
-    RunResult { events, outcomes, stats: None, bytes: out_bytes, crashed }
+    RunResult { events, outcomes, stats: None, bytes: out_bytes, crashed, writes: vec![] }
 }
